@@ -690,7 +690,7 @@ impl RawExec {
         let r: Result<Result<(), RawError>, String> = catch(|| -> Result<(), RawError> {
             match op {
                 ROp::Create(name) => {
-                    db.create_region_if_needed(name)?;
+                    let _ = db.create_region_if_needed(name)?;
                     Ok(())
                 }
                 ROp::Write { name, n } => {
